@@ -97,12 +97,18 @@ pub fn slow_outcome(c: &SlowCase) -> Outcome {
             let n_slow = c.slow.len();
             let mut links: Vec<Link> = vec![];
             let total_subs = n_slow + if c.with_healthy { 1 } else { 0 };
-            for _ in 0..total_subs {
+            for si in 0..total_subs {
                 // every other case the subscribers announce an empty Identity (libzmq's default)
                 match simx::attach_raw(&mut sim, s, if c.publishes.len() % 2 == 1 { Some(&[][..]) } else { None }).await {
                     Ok((l, _)) => {
                         // subscribe to everything / to "tt"
                         l.raw_send_now(&[if c.filtered { vec![1u8, b't', b't'] } else { vec![1u8] }]);
+                        // every other subscriber holds a second, OVERLAPPING subscription ("tt0"
+                        // inside "tt", "t" inside ""): the set of matching publishes is the
+                        // same, and each must still arrive exactly once
+                        if si % 2 == 1 {
+                            l.raw_send_now(&[if c.filtered { vec![1u8, b't', b't', b'0'] } else { vec![1u8, b't'] }]);
+                        }
                         links.push(l);
                     }
                     Err(e) => {
@@ -650,7 +656,7 @@ pub fn run(ctx: &Ctx) -> (Report, PropertyMeta) {
 
     let meta = PropertyMeta {
         level: "fault_enumeration",
-        rule: "real PUB and XPUB sockets with raw subscribers whose write side follows a generated back-pressure pattern (accept k bytes then stall, k-byte partial writes, resume, never drain, BrokenPipe) while 20..400 tagged messages with sizes from {1, 254, 255, 256, 1000, 65536, 131071, 131072, 131073, 200000} are published. Oracles: (1) every publish completes with no window action in between; (2) a subscriber that accepts every write receives every publish, in order; (3) a slow subscriber's wire is a well-formed ZMTP stream whose complete messages are an unmodified, order-preserving subsequence of the MATCHING publishes (in a third of the cases everybody subscribes to 'tt' and half of the publishes have a first frame that is a proper prefix of it, empty or unrelated; a trailing fragment only on a broken connection and then a prefix of a later publish); (4) of the bytes published while a subscriber was stalled at most HWM + one message reach it later, and live heap (counting allocator) grows by at most 2 x (HWM + largest message) + 64 KiB per stalled subscriber while all subscribers are stalled; (5) a broken subscriber does not make publish fail; (6) on real TCP and IPC endpoints subscribers stalled inside their handshake do not keep other subscribers from joining and receiving every publish. Non-trivial = a subscriber stalls while >= HWM bytes are published and later resumes; distinct by case".into(),
+        rule: "real PUB and XPUB sockets with raw subscribers whose write side follows a generated back-pressure pattern (accept k bytes then stall, k-byte partial writes, resume, never drain, BrokenPipe) while 20..400 tagged messages with sizes from {1, 254, 255, 256, 1000, 65536, 131071, 131072, 131073, 200000} are published. Oracles: (1) every publish completes with no window action in between; (2) a subscriber that accepts every write receives every publish, in order; (3) a slow subscriber's wire is a well-formed ZMTP stream whose complete messages are an unmodified, order-preserving subsequence of the MATCHING publishes (in a third of the cases everybody subscribes to 'tt' and half of the publishes have a first frame that is a proper prefix of it, empty or unrelated; a trailing fragment only on a broken connection and then a prefix of a later publish); (4) of the bytes published while a subscriber was stalled at most HWM + one message reach it later, and live heap (counting allocator) grows by at most 2 x (HWM + largest message) + 64 KiB per stalled subscriber while all subscribers are stalled; (5) a broken subscriber does not make publish fail; every other subscriber holds a second, overlapping subscription and must still get each matching publish exactly once; (6) on real TCP and IPC endpoints subscribers stalled inside their handshake do not keep other subscribers from joining and receiving every publish. Non-trivial = a subscriber stalls while >= HWM bytes are published and later resumes; distinct by case".into(),
         assumptions: vec!["the high-water mark is asynchronous-codec's default send HWM (131072 bytes), which the library does not change".into()],
         exhaustive: false,
     };
